@@ -30,6 +30,8 @@ def op(o, wb=(), wh=(), ks=()):
     return [dict(op=o, wb=list(wb), wh=list(wh), ks=list(ks))]
 
 
+# (the very first cycle starts without debounce: after the first producer call the loop is already parked at the
+# first gate, i.e. inside the lock-free window; later cycles need an L at rest to let the 20 ms timer fire)
 # schedules derived from the counterexamples TLC finds when an as-built alternative is enabled in the model
 DIRECTED = [
     # want sent; cancel; re-add clears the queued cancel; second cancel finds nothing "sent" -> peer keeps the want
@@ -39,9 +41,9 @@ DIRECTED = [
     # rebroadcast moves the want off the sent list; a cancel before the re-send is lost
     dict(sh=True, maxN=0, steps=op("bcst", ks=[1]) + L(4) + op("rb") + op("cancels", ks=[1]) + L(3)),
     # size limit 1: the only built entry is withdrawn in the window, the message is empty, entry 2 stays pending
-    dict(sh=True, maxN=1, steps=op("bcst", ks=[1, 2]) + L(1) + op("cancels", ks=[1]) + L(2)),
+    dict(sh=True, maxN=1, steps=op("bcst", ks=[1, 2]) + op("cancels", ks=[1]) + L(3)),
     # want-block built; cancelled and re-added as want-have in the window; markSent accepts the weaker want
-    dict(sh=True, maxN=0, steps=op("wants", wb=[1]) + L(1) + op("cancels", ks=[1]) + op("wants", wh=[1]) + L(4)),
+    dict(sh=True, maxN=0, steps=op("wants", wb=[1]) + op("cancels", ks=[1]) + op("wants", wh=[1]) + L(4)),
     # plain runs without any race
     dict(sh=False, maxN=2, steps=op("bcst", ks=[1, 2, 3]) + op("wants", wb=[2], wh=[4]) + L(12) + op("cancels", ks=[1, 2]) + L(6) + op("rb") + L(8)),
     dict(sh=True, maxN=3, steps=op("wants", wb=[1, 2], wh=[3, 4]) + op("bcst", ks=[1, 5]) + L(3) + op("cancels", ks=[2]) + op("wants", wb=[3]) + L(12) + op("rb") + L(10)),
@@ -64,7 +66,9 @@ def validate(ctx, recs, name, negative=None, timeout=1500):
             ctx.broken("trace validation %s (with deviations) timed out" % name)
             return False
         if res2["accepted"]:
-            sets = [set(re.findall(r'"(\w+)"', m)) for m in re.findall(r'<<"DEV_SET", \{(.*?)\}>>', res2["out"])]
+            # TLC wraps long tuples over several lines
+            sets = [set(re.findall(r'"(\w+)"', m))
+                    for m in re.findall(r'<<\s*"DEV_SET",\s*\{(.*?)\}\s*>>', res2["out"], re.S)]
             sets = [s for s in sets if s]
             if not sets:
                 ctx.broken("trace %s accepted only with deviations but none reported" % name)
